@@ -334,6 +334,101 @@ func graphReplay(run *core.Run, rel *storeRel, maxCap int, mk func(cap int) stor
 	}
 	run.Set("relation_pairs_total", int64(len(rel.Rel)))
 	run.Set("relation_pairs_replayed", covered.Len())
+	// Random walks through the relation: the breadth-first replay reaches every abstract state by its
+	// shortest history only, so state the implementation keeps besides the retained set (index entries,
+	// deletion marks) is exercised along one path; long random histories over the same universe reach
+	// the states by many other paths (through replacement, deletion and eviction), every step judged by
+	// the relation.
+	walks := 1500
+	if run.Thorough() {
+		walks = 6000
+	}
+	r := run.Rand(fmt.Sprint("store-walks", viaHandler))
+	// events that have to do with each other: one names the other in an e / a tag, or both have the
+	// same author and kind (versions of an address, requests of one author)
+	addrOf := func(e abs.Event) string {
+		d := ""
+		for _, t := range e.Tags {
+			if t.Name == "d" {
+				d = t.Val
+				break
+			}
+		}
+		return fmt.Sprintf("%d:%s:%s", e.Kind, e.Author, d)
+	}
+	related := map[string][]string{}
+	for _, x := range labels {
+		for _, y := range labels {
+			if x == y {
+				continue
+			}
+			ex, ey := rel.Universe[x], rel.Universe[y]
+			rl := ex.Author == ey.Author && ex.Kind == ey.Kind
+			for _, t := range ex.Tags {
+				if (t.Name == "e" && t.Val == y) || (t.Name == "a" && t.Val == addrOf(ey)) {
+					rl = true
+				}
+			}
+			if rl {
+				related[x] = append(related[x], y)
+				related[y] = append(related[y], x)
+			}
+		}
+	}
+	for w := 0; w < walks && run.Violations() < 8; w++ {
+		cap := 1 + r.Intn(maxCap)
+		st := mk(cap)
+		var hist []string
+		state := []string{}
+		// two of three walks stay inside a small theme: a seed event, what is related to it, two fillers
+		pool := labels
+		if w%3 != 0 {
+			seed := labels[r.Intn(len(labels))]
+			pool = append([]string{seed}, related[seed]...)
+			for _, y := range related[seed] {
+				pool = append(pool, related[y]...)
+			}
+			if len(pool) > 9 {
+				r.Shuffle(len(pool)-1, func(i, j int) { pool[i+1], pool[j+1] = pool[j+1], pool[i+1] })
+				pool = pool[:9]
+			}
+			pool = append(pool, labels[r.Intn(len(labels))], labels[r.Intn(len(labels))])
+		}
+		for step := 0; step < 16; step++ {
+			a := pool[r.Intn(len(pool))]
+			added, err := st.Add(real[a])
+			if err != nil {
+				run.Violate("graph:handler-protocol", err.Error(), map[string]any{"cap": cap, "path": hist, "add": a})
+				break
+			}
+			evs, err := st.Find(matchAll)
+			if err != nil {
+				run.Violate("graph:handler-protocol", err.Error(), map[string]any{"cap": cap, "path": hist, "add": a})
+				break
+			}
+			after := conc.Labels(evs)
+			run.Add("walk_steps", 1)
+			outs := rel.Rel[relKey(cap, abs.KeyOf(state), a)]
+			if outs == nil {
+				run.Problem("random walk left the exported relation: cap=%d state=%v add=%s", cap, state, a)
+				break
+			}
+			if !outs[fmt.Sprintf("%v|%s", added, abs.KeyOf(after))] {
+				var allowed []string
+				for o := range outs {
+					allowed = append(allowed, o)
+				}
+				sort.Strings(allowed)
+				run.Violate("walk:"+stepShape(state, after, rel.Universe, rel.Universe[a], added),
+					fmt.Sprintf("cap=%d history=%v state=%v Add(%s)=%v -> listing %v; specification allows added|state in %v", cap, hist, state, a, added, after, allowed),
+					map[string]any{"cap": cap, "history": hist, "add": a, "events": rel.Universe, "via_handler": viaHandler})
+				break
+			}
+			hist = append(hist, a)
+			state = after
+		}
+		st.Close()
+	}
 }
 
 // ---------------------------------------------------------------------------
@@ -355,6 +450,7 @@ func genStoreTraces(run *core.Run, purpose string, o histOpts, mk func(cap int) 
 	for t := 0; t < o.traces; t++ {
 		conc := abs.NewConc()
 		g := NewGen(r, fmt.Sprintf("%s%d_", purpose[:1], t))
+		g.Extreme = t%3 == 1
 		if o.authors != nil {
 			g.Authors = o.authors
 		}
@@ -509,7 +605,7 @@ func C04(run *core.Run) {
 	traces, _ := genStoreTraces(run, "retention", o, newCache)
 	validateStoreTraces(run, traces)
 	storeCanary(run, traces)
-	run.Set("rule", "TLC enumerates every reachable retained set of StoreMC (26-event universe hitting every retention rule, capacities 1..MaxCap) and every Add from it; the harness reaches each abstract state by a real history and offers every event (graph-guided replay), then validates seeded random histories (3 authors, all classes, re-offers, deletion requests) step by step against StoreTrace. distinct_nontrivial = distinct (capacity, state, event) pairs replayed on the real EventCache")
+	run.Set("rule", "TLC enumerates every reachable retained set of StoreMC (30-event universe hitting every retention rule, capacities 1..MaxCap) and every Add from it; the harness reaches each abstract state by a real history and offers every event (graph-guided replay), then validates seeded random histories (3 authors, all classes, re-offers, deletion requests) step by step against StoreTrace. distinct_nontrivial = distinct (capacity, state, event) pairs replayed on the real EventCache")
 	run.Set("evaluations", run.Get("replayed_transitions")+run.Get("trace_lines"))
 	run.Set("distinct_nontrivial", run.Get("relation_pairs_replayed"))
 	run.Set("exhaustive", ok)
